@@ -48,6 +48,10 @@ def run(ctx, w):
         c14.view_rules(ctx, w, S, R, T)
     up, down = c06.scroll_prims(w, S)
     c12.c06_w9(ctx, w, S, up)
+    # every printable character and CR / LF reaches its handler (Ground row of the transition table)
+    from rules import c03, tables
+    c03.run_transition(ctx, w, tables.parser_tables(w), only_states=["Ground"], rule="T0")
+    ctx.floor("T0", 20, "Ground-state cells")
 
 
 def text_rules(ctx, w, S, R):
